@@ -517,17 +517,15 @@ def run(ctx: vlib.Ctx):
         for e in r.get("plain_exc") or []:
             ctx.count("plain:" + (e or "returns"))
             ctx.cov["evaluations"] += len(I.SUBSETS)
+        for why, cnt in (r.get("inconclusive") or {}).items():
+            ctx.count("S:inconclusive:" + why, cnt)
         for f in r["fails"]:
-            if f[2] == "crash" and f[3] == "SIGALRM":
-                ctx.count("S:timeout-not-judged")
-                ctx.notes.append(f"program {n} under {f[0]} exceeded the watchdog; not judged")
-                continue
             n_fail += 1
             sig = signature(f)
             if sig in seen_sig:
                 continue
             seen_sig.add(sig)
-            src, specs = progs[n]
+            src, specs = progs[n][0], (r.get("specs") or progs[n][1])
             spec = specs[f[1]] if f[1] >= 0 else specs[0]
             small = src
             if f[2] not in ("harness",):
